@@ -252,8 +252,17 @@ impl C20 {
         let a = lib(ctx, "adv::tensor", "any", &input, || af.tensor(&ag));
         ctx.count("op:tensor");
         if let Some(a) = a {
-            let ok = from_adv(&a).ok() == Some(f.tensor(&g));
-            ctx.check(ok, "adv::tensor/juxtaposition/value/any", || json!({"input": input()}));
+            match from_adv(&a) {
+                Ok(pa) => {
+                    let want = f.tensor(&g);
+                    if ctx.check(pa.src_type() == want.src_type() && pa.tgt_type() == want.tgt_type(), "adv::tensor/type/value/any", || json!({"input": input(), "observed": show(&pa)})) {
+                        expect_iso(ctx, "adv::tensor", "juxtaposition", "any", &pa, &want, &input);
+                    }
+                }
+                Err(e) => {
+                    ctx.check(false, "adv::tensor/well-formed/value/any", || json!({"input": input(), "observed": e}));
+                }
+            }
         }
         // functor
         let spec = FSpec::random(r);
